@@ -18,7 +18,9 @@ var Shapes = map[string][]Op{
 	"diamond": {{K: "app", A: 0}, {K: "join", A: 1, B: 0}, {K: "app", A: 0}, {K: "app", A: 1}, {K: "join", A: 0, B: 1}, {K: "app", A: 0}},
 	"heads3":  {{K: "app", A: 0}, {K: "app", A: 1}, {K: "app", A: 2}, {K: "join", A: 0, B: 1}, {K: "join", A: 0, B: 2}},
 	"stale":   {{K: "app", A: 0}, {K: "app", A: 0}, {K: "join", A: 1, B: 0}, {K: "app", A: 1}, {K: "app", A: 0}, {K: "app", A: 0}, {K: "join", A: 0, B: 1}},
+	// a long chain and, next to it, a head as old as the chain's first entry
+	"oldhead": {{K: "app", A: 0}, {K: "app", A: 0}, {K: "app", A: 0}, {K: "app", A: 0}, {K: "app", A: 0}, {K: "app", A: 1}, {K: "join", A: 0, B: 1}},
 	"wide":    {{K: "app", A: 0}, {K: "join", A: 1, B: 0}, {K: "join", A: 2, B: 0}, {K: "app", A: 0}, {K: "app", A: 1}, {K: "app", A: 2}, {K: "join", A: 0, B: 1}, {K: "join", A: 0, B: 2}, {K: "app", A: 0}},
 }
 
-var ShapeNames = []string{"chain3", "chain4", "fork", "diamond", "heads3", "stale", "chain6", "wide", "chain8"}
+var ShapeNames = []string{"chain3", "chain4", "fork", "diamond", "heads3", "stale", "chain6", "wide", "chain8", "oldhead"}
